@@ -328,6 +328,33 @@ func joinStr(a []string) string {
 	return s
 }
 
+// eofValue: the error binary.Read returns on a short read: io.EOF when nothing was left,
+// io.ErrUnexpectedEOF otherwise (both opaque non-nil objects with an identity).
+func eofValue(nothingLeft bool) Value {
+	if nothingLeft {
+		return HandleV{"io.EOF", 0}
+	}
+	return HandleV{"io.ErrUnexpectedEOF", 0}
+}
+
+// seedIOErrors makes the package-level io.EOF / io.ErrUnexpectedEOF variables hold the objects
+// eofValue returns, so that `err == io.EOF` is decided.
+func seedIOErrors(it *Interp, st *state) {
+	iop := it.w.Prog.ImportedPackage("io")
+	if iop == nil {
+		return
+	}
+	for name, h := range map[string]HandleV{"EOF": {"io.EOF", 0}, "ErrUnexpectedEOF": {"io.ErrUnexpectedEOF", 0}} {
+		if g, ok := iop.Members[name].(*ssa.Global); ok {
+			o := it.globalObj(g)
+			if st.mem[o] == nil {
+				st.mem[o] = map[string]Value{}
+			}
+			st.mem[o][""] = h
+		}
+	}
+}
+
 // readerModels: bytes.NewReader and binary.Read on a reader at a concrete position (E2).
 func readerModels(it *Interp) {
 	it.Models["bytes.NewReader"] = func(it *Interp, st *state, call *ssa.CallCommon, args []Value) (Value, bool) {
@@ -339,8 +366,127 @@ func readerModels(it *Interp) {
 		st.mem[o] = map[string]Value{".data": sl, ".pos": it.constBV(0, 64)}
 		return Ptr{Obj: o}, true
 	}
-	// bytes.Buffer used as a reader over a slice
-	it.Models["bytes.NewBuffer"] = it.Models["bytes.NewReader"]
+	// bytes.Buffer over a slice (reader) or over nothing (writer)
+	it.Models["bytes.NewBuffer"] = func(it *Interp, st *state, call *ssa.CallCommon, args []Value) (Value, bool) {
+		sl, ok := args[0].(SliceV)
+		if !ok {
+			return nil, false
+		}
+		o := it.NewObj(fmt.Sprintf("buffer%d", it.nobj+1), false)
+		if sl.Nil || sl.Obj == nil {
+			bk := it.NewObj(fmt.Sprintf("bufdata%d", it.nobj+1), false)
+			st.mem[bk] = map[string]Value{}
+			sl = SliceV{Obj: bk, Len: 0}
+		}
+		if sl.Len < 0 {
+			return nil, false
+		}
+		st.mem[o] = map[string]Value{".data": sl, ".pos": it.constBV(0, 64)}
+		return Ptr{Obj: o}, true
+	}
+	bufWrite := func(it *Interp, st *state, bp Ptr, bs []BV) bool {
+		data, ok := st.mem[bp.Obj][".data"].(SliceV)
+		if !ok || data.Len < 0 || data.Len+len(bs) > 4096 {
+			return false
+		}
+		for i, b := range bs {
+			it.storeQuiet(st, it.sliceElemPtr(data, data.Len+i), b)
+		}
+		data.Len += len(bs)
+		st.mem[bp.Obj][".data"] = data
+		return true
+	}
+	it.Models["(*bytes.Buffer).Bytes"] = func(it *Interp, st *state, call *ssa.CallCommon, args []Value) (Value, bool) {
+		bp, ok := args[0].(Ptr)
+		if !ok {
+			return nil, false
+		}
+		data, ok1 := st.mem[bp.Obj][".data"].(SliceV)
+		pos, ok2 := it.concreteInt(st.mem[bp.Obj][".pos"])
+		if !ok1 || !ok2 {
+			return nil, false
+		}
+		return SliceV{Obj: data.Obj, Path: data.Path, Lo: data.Lo + pos, Len: data.Len - pos}, true
+	}
+	it.Models["(*bytes.Buffer).Write"] = func(it *Interp, st *state, call *ssa.CallCommon, args []Value) (Value, bool) {
+		bp, ok := args[0].(Ptr)
+		src, ok2 := args[1].(SliceV)
+		if !ok || !ok2 || src.Len < 0 {
+			return nil, false
+		}
+		var bs []BV
+		for i := 0; i < src.Len; i++ {
+			b, ok := it.load(st, it.sliceElemPtr(src, i), u8T).(BV)
+			if !ok {
+				return nil, false
+			}
+			bs = append(bs, b)
+		}
+		if !bufWrite(it, st, bp, bs) {
+			return nil, false
+		}
+		return TupleV{it.constBV(uint64(len(bs)), 64).signed(), NilV{}}, true
+	}
+	it.Models["(*bytes.Buffer).WriteByte"] = func(it *Interp, st *state, call *ssa.CallCommon, args []Value) (Value, bool) {
+		bp, ok := args[0].(Ptr)
+		b, ok2 := args[1].(BV)
+		if !ok || !ok2 || !bufWrite(it, st, bp, []BV{b}) {
+			return nil, false
+		}
+		return NilV{}, true
+	}
+	it.Models["encoding/binary.Write"] = func(it *Interp, st *state, call *ssa.CallCommon, args []Value) (Value, bool) {
+		bp, ok := args[0].(Ptr)
+		if !ok {
+			return nil, false
+		}
+		var bs []BV
+		split := func(v BV) bool {
+			if v.W%8 != 0 {
+				return false
+			}
+			for k := v.W/8 - 1; k >= 0; k-- { // big endian
+				bs = append(bs, bvBits(v, 8*k, 8))
+			}
+			return true
+		}
+		switch v := args[2].(type) {
+		case BV:
+			if !split(v) {
+				return nil, false
+			}
+		case Ptr:
+			mi, ok := call.Args[2].(*ssa.MakeInterface)
+			if !ok {
+				return nil, false
+			}
+			pt, ok := mi.X.Type().Underlying().(*types.Pointer)
+			if !ok {
+				return nil, false
+			}
+			lv, ok := it.load(st, v, pt.Elem()).(BV)
+			if !ok || !split(lv) {
+				return nil, false
+			}
+		case SliceV:
+			if v.Len < 0 {
+				return nil, false
+			}
+			for i := 0; i < v.Len; i++ {
+				b, ok := it.load(st, it.sliceElemPtr(v, i), u8T).(BV)
+				if !ok {
+					return nil, false
+				}
+				bs = append(bs, b)
+			}
+		default:
+			return nil, false
+		}
+		if !bufWrite(it, st, bp, bs) {
+			return nil, false
+		}
+		return NilV{}, true
+	}
 	it.Models["(*bytes.Buffer).ReadByte"] = func(it *Interp, st *state, call *ssa.CallCommon, args []Value) (Value, bool) {
 		rp, ok := args[0].(Ptr)
 		if !ok {
@@ -426,19 +572,59 @@ func readerModels(it *Interp) {
 			if !ok {
 				return nil, false
 			}
-			w, _, ok := typeWidth(pt.Elem())
-			if !ok || w%8 != 0 {
+			// fixed-size layout of the target: integers, arrays and structs of them, in order
+			type cellT struct {
+				path string
+				w    int
+			}
+			var cells []cellT
+			var lay func(t types.Type, path string) bool
+			lay = func(t types.Type, path string) bool {
+				if w, _, isInt := typeWidth(t); isInt {
+					if w%8 != 0 {
+						return false
+					}
+					cells = append(cells, cellT{path, w})
+					return true
+				}
+				switch u := t.Underlying().(type) {
+				case *types.Struct:
+					for i := 0; i < u.NumFields(); i++ {
+						if !lay(u.Field(i).Type(), path+"."+u.Field(i).Name()) {
+							return false
+						}
+					}
+					return true
+				case *types.Array:
+					for i := 0; i < int(u.Len()); i++ {
+						if !lay(u.Elem(), fmt.Sprintf("%s[%d]", path, i)) {
+							return false
+						}
+					}
+					return true
+				}
+				return false
+			}
+			if !lay(pt.Elem(), "") {
 				return nil, false
 			}
-			bs, ok := take(w / 8)
+			total := 0
+			for _, c := range cells {
+				total += c.w / 8
+			}
+			bs, ok := take(total)
 			if !ok {
-				return ErrV{it.T.zero}, true // io.EOF / io.ErrUnexpectedEOF
+				return eofValue(pos >= data.Len), true
 			}
-			v := BV{W: 0}
-			for _, b := range bs { // big endian: first octet is the most significant
-				v = bvCat(v, b)
+			k := 0
+			for _, c := range cells {
+				v := BV{W: 0}
+				for i := 0; i < c.w/8; i++ { // big endian: first octet is the most significant
+					v = bvCat(v, bs[k])
+					k++
+				}
+				it.store(st, Ptr{Obj: dst.Obj, Path: dst.Path + c.path}, v)
 			}
-			it.store(st, dst, v)
 			return NilV{}, true
 		case SliceV:
 			if dst.Len < 0 {
@@ -446,7 +632,7 @@ func readerModels(it *Interp) {
 			}
 			bs, ok := take(dst.Len)
 			if !ok {
-				return ErrV{it.T.zero}, true
+				return eofValue(pos >= data.Len), true
 			}
 			for i, b := range bs {
 				it.store(st, it.sliceElemPtr(dst, i), b)
